@@ -80,7 +80,43 @@ def gen(rng, tier):
                 ops.append(['check'])
         ops.append([rng.choice(['disconnect', 'sever', 'sever_mid_binary',
                                 'sever_with_callbacks', 'sdisc_all',
-                                'server_close', 'sever'])])
+                                'server_close', 'sever',
+                                'late_accept_sever'])])
+    if rng.random() < 0.12:
+        return gen_reconnect(rng, tier, cfg)
+    if rng.random() < 0.08:
+        # aimed: a connection made with wait=False on which one namespace is
+        # not answered until the very instant the transport goes; then the
+        # next connection
+        nss = rng.sample(NSS, rng.randrange(1, 4))
+        held = rng.choice(nss)
+        cfg['policy'] = rng.choice(['random', 'pct'])
+        scr = {ns: ['accept', 0] for ns in NSS}
+        scr[held] = ['silent', 0]
+        ops = [['connect', nss, 'none', False, scr], ['check'],
+               ['late_accept_sever'],
+               ['connect', rng.choice([nss, [held], None]), 'dict',
+                rng.random() < 0.5, {ns: ['accept', 0] for ns in NSS}],
+               ['check'], ['sevent', held], ['check'],
+               [rng.choice(['disconnect', 'sever', 'sdisc_all'])]]
+    return {'cfg': cfg, 'ops': ops}
+
+
+def gen_reconnect(rng, tier, cfg):
+    """A client with automatic reconnection: what it held for the lost
+    connection (session ids, callbacks, a half-received binary packet) must
+    not reach the connection it makes by itself either."""
+    nss = NSS[:rng.randrange(1, len(NSS) + 1)]
+    cfg = dict(cfg, scenario='reconnect', nss=nss, handler_nss=nss,
+               style='func')
+    ops = []
+    for _ in range(rng.randrange(1, 4)):
+        for _ in range(rng.randrange(0, 4)):
+            ops.append([rng.choice(['emit_cb', 'sevent', 'sevent_bin']),
+                        rng.choice(nss)])
+        ops.append([rng.choice(['sever', 'sever_mid_binary',
+                                'sever_mid_binary', 'sever_with_callbacks']),
+                    rng.choice(nss)])
     return {'cfg': cfg, 'ops': ops}
 
 
@@ -96,9 +132,206 @@ def run(case):
                    policy=cfg.get('policy', 'fifo'), pct_depth=2,
                    pct_span=200)
     try:
+        if cfg.get('scenario') == 'reconnect':
+            return _run_reconnect(case, cfg, w)
         return _run(case, cfg, w)
     finally:
         w.close()
+
+
+def _run_reconnect(case, cfg, w):
+    v = V(PROP)
+    rec = w.rec
+    ss = w.add_scripted_server('s')
+    gen_no = [0]
+    accepted = {}
+
+    def on_packet(eio_sid, p):
+        if p.type == sio.CONNECT:
+            gen_no[0] += 1
+            sid = 'sid%d%s' % (gen_no[0], p.nsp)
+            accepted[p.nsp] = sid
+            return ss.send_pkt(sio.CONNECT, p.nsp, None, {'sid': sid},
+                               eio_sid=eio_sid)
+    ss.on_packet = on_packet
+    c = w.add_client('c', reconnection=True, reconnection_delay=0.2,
+                     reconnection_delay_max=0.4, randomization_factor=0)
+
+    def plan(label, args, ev):
+        return [('ret', None)]
+    coroutine = cfg['coroutine'] and w.mode == 'async'
+    nss = list(cfg['nss'])
+    for ns in nss:
+        for evn in ('connect', 'disconnect', 'ev'):
+            c.on(evn, w.make_handler(('c', 'func', ns, evn), plan, coroutine),
+                 namespace=ns)
+    h = w.call(c.connect, 'http://s', transports=['websocket'],
+               namespaces=list(nss), wait_timeout=5)
+    w.settle()
+    if h.exc is not None or not c.connected:
+        return {'harness': 'client failed to connect: %r' % (h.exc,)}
+
+    def runs(event, since):
+        out = {}
+        for e in rec.events:
+            if e['seq'] > since and e['kind'] == 'h_enter' and \
+                    e['label'][0] == 'c' and e['label'][3] == event:
+                out.setdefault(e['label'][2], []).append(e)
+        return out
+
+    def mirror(where):
+        got = dict(c.namespaces)
+        if got != accepted:
+            v.add('namespaces_mirror', '%s: client lists %s, server has '
+                  'accepted and not ended %s' % (where, got, accepted),
+                  'stale' if set(got.values()) - set(accepted.values())
+                  else 'missing')
+        elif not c.connected:
+            v.add('connected_flag', '%s: connected=False while accepted '
+                  'namespaces are %s' % (where, sorted(accepted)),
+                  'clear_with_namespaces')
+
+    cb_log = []
+    old_ids = []
+    probe = [0]
+
+    def send_event(ns, data):
+        # one frame at a time: the client handles every message in a thread
+        # of its own and relies on those threads starting in order
+        for f in ss.frames_for(sio.EVENT, ns, None, data):
+            ss.send_frames([f])
+            w.settle()
+
+    def probe_events(where):
+        """An event on every namespace arrives intact, once."""
+        for ns in nss:
+            if ns not in accepted or ns not in c.namespaces:
+                continue
+            probe[0] += 1
+            tag = 'P%d' % probe[0]
+            seq0 = rec.seq
+            send_event(ns, ['ev', tag, b'\x01' + tag.encode()])
+            got = [tuple(e['args']) for e in runs('ev', seq0).get(ns, [])]
+            if got != [(tag, b'\x01' + tag.encode())]:
+                v.add('event_after_reconnect', '%s: the server sent ev(%r, '
+                      'bytes) on %s, the handler ran with %s'
+                      % (where, tag, ns, trepr(got)),
+                      'none' if not got else 'other')
+
+    for opi, op in enumerate(case['ops']):
+        k, ns = op
+        where = 'op%d %s' % (opi, op)
+        if k == 'emit_cb':
+            rx0 = len(ss.rx)
+            tag = 'E%d' % opi
+            w.call(c.emit, 'ev', tag, namespace=ns,
+                   callback=lambda *a, tag=tag: cb_log.append((tag, a)))
+            w.settle()
+            for r in ss.rx[rx0:]:
+                if r['pkt'].id is not None:
+                    old_ids.append((ns, r['pkt'].id))
+        elif k in ('sevent', 'sevent_bin'):
+            seq0 = rec.seq
+            data = ['ev', 'S%d' % opi] + ([b'bin'] if k == 'sevent_bin'
+                                           else [])
+            send_event(ns, data)
+            got = [tuple(e['args']) for e in runs('ev', seq0).get(ns, [])]
+            if got != [tuple(data[1:])]:
+                v.add('event_after_reconnect', '%s: handler ran with %s'
+                      % (where, trepr(got)), 'live')
+        else:
+            seq0 = rec.seq
+            was = dict(accepted)
+            if k == 'sever_mid_binary':
+                fr = ss.frames_for(sio.EVENT, ns, None, ['ev', b'a', b'b'])
+                ss.send_frames(fr[:1])
+                w.settle()
+                ss.send_frames(fr[1:2])
+                w.settle()
+                rec.count('fault.sever_in_binary')
+            elif k == 'sever_with_callbacks':
+                rx0 = len(ss.rx)
+                w.call(c.emit, 'ev', 'pending', namespace=ns,
+                       callback=lambda *a: cb_log.append(('pending', a)))
+                w.settle()
+                for r in ss.rx[rx0:]:
+                    if r['pkt'].id is not None:
+                        old_ids.append((ns, r['pkt'].id))
+                rec.count('fault.sever_with_callbacks')
+            accepted.clear()
+            for cn in w.net.conns:
+                if not cn.severed:
+                    cn.sever(0.0, 0.0)
+            w.settle()
+            w.advance(1.5)          # the client reconnects by itself
+            w.settle()
+            rec.count('fault.sever_then_reconnect')
+            dr = runs('disconnect', seq0)
+            for n2 in was:
+                n = len(dr.get(n2, []))
+                if n != 1:
+                    v.add('disconnect_handler_count', '%s: namespace %s was '
+                          'connected, disconnect handler ran %d times'
+                          % (where, n2, n),
+                          'transport_loss:got%d' % min(n, 2))
+            mirror(where + ' (after the automatic reconnection)')
+            cr = runs('connect', seq0)
+            for n2 in accepted:
+                n = len(cr.get(n2, []))
+                if n != 1 and n2 in c.namespaces:
+                    v.add('connect_handler_count', '%s: namespace %s: '
+                          'connect handler ran %d times after the '
+                          'reconnection' % (where, n2, n))
+            n_cb = len(cb_log)
+            for n2, id_ in old_ids:
+                if n2 in accepted and n2 in c.namespaces:
+                    ss.send_pkt(sio.ACK, n2, id_, ['stale'])
+                    w.settle()
+            if len(cb_log) != n_cb:
+                v.add('stale_ack_fired_callback', '%s: ACKs %s of the '
+                      'previous connection fired %s'
+                      % (where, old_ids, cb_log[n_cb:]))
+            del old_ids[:]
+            probe_events(where)
+    seq0 = rec.seq
+    was = dict(accepted) if c.connected else {}
+    hd = w.call(c.disconnect)
+    w.settle()
+    accepted.clear()
+    w.advance(2.0)
+    w.settle()
+    if hd.exc is not None:
+        v.add('disconnect_raised', '%r' % (hd.exc,))
+    dr = runs('disconnect', seq0)
+    for n2 in was:
+        n = len(dr.get(n2, []))
+        if n != 1:
+            v.add('disconnect_handler_count', 'final disconnect(): '
+                  'namespace %s, disconnect handler ran %d times' % (n2, n),
+                  'client_disconnect:got%d' % min(n, 2))
+    if c.connected or c.namespaces:
+        v.add('not_fully_disconnected', 'final disconnect(): connected=%s '
+              'namespaces=%s' % (c.connected, c.namespaces),
+              'client_disconnect')
+    if w.mode == 'thread':
+        from sim.world import exc_site
+        for name, e in w.kernel.thread_errors:
+            v.add('thread_raised', '%s: %r in %s' % (name, e, exc_site(e)),
+                  '%s@%s' % (type(e).__name__, exc_site(e)))
+    for e in rec.errors:
+        if 'packet queue is empty' in e['msg']:
+            continue
+        v.add('error_logged', '%s %s in %s' % (e['msg'], e.get('exc'),
+                                               e.get('site')),
+              '%s@%s' % ((e.get('exc') or e['msg']).split(':')[0][:40],
+                         e.get('site')))
+    return {'violations': v.items, 'digest': rec.digest.hex(),
+            'nontrivial': True,
+            'stats': {'faults': {k: n for k, n in rec.counters.items()
+                                 if k.startswith('fault.')}},
+            'sim_time': w.now() - 1_700_000_000.0,
+            'cfg': '%s/reconnect' % cfg['mode'],
+            'choices': w.choices.dump(), 'log': rec.dump_log()}
 
 
 def _run(case, cfg, w):
@@ -472,10 +705,48 @@ def _run(case, cfg, w):
                 live = False
                 settle_engineio()
         elif k in ('disconnect', 'sever', 'sever_mid_binary',
-                   'sever_with_callbacks', 'sdisc_all', 'server_close'):
+                   'sever_with_callbacks', 'sdisc_all', 'server_close',
+                   'late_accept_sever'):
             nontrivial = True
             if k == 'sdisc_all' and not accepted:
                 k = 'sever'
+            held = [ns for ns in requested
+                    if script.get(ns, ['x'])[0] == 'silent'
+                    and ns not in accepted and ns not in refused]
+            if k == 'late_accept_sever' and (not held or tainted[0]):
+                k = 'sever'
+            if k == 'late_accept_sever':
+                # the server's answer to a CONNECT it had not answered yet
+                # and the loss of the transport reach the client in the same
+                # instant: engine.io hands the answer to a handler task /
+                # thread of its own, which may get to run only after the
+                # loss has been processed
+                ns = held[0]
+                gen_no[0] += 1
+                fr = ss.frames_for(sio.CONNECT, ns, None,
+                                   {'sid': 'sid%d%s' % (gen_no[0], ns)})
+                conn = [cn for cn in w.net.conns if not cn.severed][-1]
+
+                def after(d, data, conn=conn, fr=fr):
+                    if d == 's2c' and isinstance(data, str) and \
+                            data[1:] == fr[0]:
+                        conn.after_hook = None
+                        conn.sever_now()
+                conn.after_hook = after
+                ss.send_frames(fr)
+                rec.count('fault.late_reply_with_loss')
+                w.settle()
+                if not conn.severed:
+                    conn.after_hook = None
+                    conn.sever(0.0, 0.0)
+                w.settle()
+                cause, reason = 'late_reply_transport_loss', \
+                    'transport error'
+                w.settle()
+                end_connection(where, cause, reason)
+                live = False
+                settle_engineio()
+                continue
             if k == 'sdisc_all':
                 for ns in sorted(accepted):
                     ss.send_pkt(sio.DISCONNECT, ns, None, None)
